@@ -24,9 +24,9 @@ type trio struct {
 	w       *world.World
 	A, H, B *world.Node
 	// ledger channels: [0] A-H, [1] B-H; per channel the two controllers
-	chAH    [2]*client.Channel // [0] A's, [1] H's
-	chBH    [2]*client.Channel // [0] B's, [1] H's
-	virt    []virtInfo
+	chAH [2]*client.Channel // [0] A's, [1] H's
+	chBH [2]*client.Channel // [0] B's, [1] H's
+	virt []virtInfo
 }
 
 type virtInfo struct {
